@@ -62,6 +62,16 @@ fn render(cmd: &Command, path: &[String], what: &str) -> Result<String, String> 
                     Ok(_) => "<no help error>".to_string(),
                 }
             }
+            "mirror_short" | "mirror_long" => {
+                // the generated `help` subcommand's copy of the tree (only materialised by Command::build)
+                let mut c = cmd;
+                c.build();
+                let mut cur: &mut Command = match c.find_subcommand_mut("help") { Some(h) => h, None => return "<no help subcommand>".to_string() };
+                for p in &path {
+                    cur = match cur.find_subcommand_mut(p) { Some(x) => x, None => return "<no mirror node>".to_string() };
+                }
+                if what == "mirror_short" { cur.render_help().to_string() } else { cur.render_long_help().to_string() }
+            }
             "direct_short" => { let mut c = cmd; c.render_help().to_string() }
             "direct_long" => { let mut c = cmd; c.render_long_help().to_string() }
             _ => { let mut c = cmd; c.render_usage().to_string() }
@@ -87,6 +97,10 @@ fn judge(r: &Value, mode: &str, obs: &Value) -> bool {
     let has_tok = |t: &Value| present.iter().any(|p| p["tok"] == *t);
     match mode {
         "usage" => !r["not_usage"].as_array().unwrap().iter().any(has_tok),
+        "mirror_short" | "mirror_long" => {
+            r["mirror_must"].as_array().unwrap().iter().all(|m| present.iter().any(|p| p["tok"] == m["tok"] && p["sec"] == m["sec"]))
+                && !r["mirror_not"].as_array().unwrap().iter().any(has_tok)
+        }
         _ => {
             let (must, not, nl) = if mode.ends_with("short") { ("must_short", "not_short", "nl_short") } else { ("must_long", "not_long", "nl_long") };
             let listed = |t: &Value| present.iter().any(|p| p["tok"] == *t && ["Arguments", "Options", "Commands"].contains(&p["sec"].as_str().unwrap_or("")));
@@ -112,6 +126,7 @@ pub fn help_replay(defs: &str, input: &str, out: &str, div: &str, widths: &str) 
             let cmd = set_width(base.clone(), w);
             let mut modes = vec!["short", "long"];
             if path.is_empty() { modes.extend(["direct_short", "direct_long", "usage"]); }
+            if r["mirror"] == true && w == widths[0] { modes.extend(["mirror_short", "mirror_long"]); }
             for mode in modes {
                 rep.count("renderings", 1);
                 let obs = match render(&cmd, &path, mode) {
